@@ -40,6 +40,25 @@ package main
 //@   may_reject
 //@   modifies fresh
 //@   noframe
+//@   at_call (github.com/goose-lang/goose/internal/coq.File).Write [the file that is written is the rendering of the translated package] true
+
+// The command line: every documented flag is registered, the arguments are parsed, and what was
+// parsed is what translate gets (flagsdef / parsed: ghost record of the flag package's state).
+//@ ghost var flagsdef map[string]bool
+//@ ghost var parsed bool
+//@ assume func flag.StringVar (p, name, value, usage)
+//@ assume func flag.BoolVar (p, name, value, usage)
+//@ assume func flag.Parse
+//@ assume func flag.Args
+//@ func main
+//@   trusted_requires [nothing is registered or parsed when the program starts] !parsed && forall n string :: !flagsdef[n]
+//@   may_reject
+//@   noframe
+//@   ghost_at_call flag.StringVar flagsdef = flagsdef[arg1 := true]
+//@   ghost_at_call flag.BoolVar flagsdef = flagsdef[arg1 := true]
+//@   ghost_at_call flag.Parse parsed = true
+//@   at_call flag.Parse [every documented flag is registered before the command line is parsed] flagsdef["out"] && flagsdef["dir"] && flagsdef["ignore-errors"] && flagsdef["source-comments"] && flagsdef["typecheck"] && flagsdef["skip-interfaces"]
+//@   at_call translate [the parsed command line is translated] parsed
 
 //@ func translate (pkgPatterns, outRootDir, modDir, ignoreErrors, tr)
 //@   may_reject
